@@ -7,7 +7,7 @@ head=$(git -C /repo log -1 --format=%h)
 one(){
   s=$1; id=${s%%-*}
   out=$(tools/try_seed.sh seeded/$s $id 2>&1)
-  if echo "$out" | grep -q "PATCH DOES NOT APPLY"; then echo "| $s | patch does not apply to /repo $head (lines rewritten by a later fix; see meta.json) |"
+  if echo "$out" | grep -q "PATCH DOES NOT APPLY"; then echo "| $s | patch does not apply to /repo $head: obsolete after a later fix (see on_current_head / applies_to in meta.json) |"
   elif echo "$out" | grep -q "^VIOLATION.*no-failing-input-found"; then echo "| $s | VIOLATION no-failing-input-found |"
   elif echo "$out" | grep -q "^VIOLATION"; then n=$(echo "$out" | grep -c "^VIOLATION"); echo "| $s | VIOLATION with failing input ($n replay files) |"
   elif echo "$out" | grep -q "BROKEN"; then echo "| $s | BROKEN-CHECK |"
